@@ -252,6 +252,11 @@ void __wrap_abort(void)
 
 static int g_failed_steps;         /* steps of the flow that did not work (judged only without faults) */
 
+/* in the fault-free warm-up every essential step of a scenario has to work, or the harness is wrong */
+#define MUST(cond, what) do { if (!(cond) && g_mode == M_PASS && !g_forked) \
+        mc_fail("internal/warm-up-step-failed", "scenario %s tp %s: %s did not work without any fault (%s)", g_sc, g_tp, \
+                what, errname(errno)); } while (0)
+
 static void check_errno_on_failure(const char *api, int err)
 {
     if (err == 0) {
@@ -536,6 +541,8 @@ static struct xcm_attr_map *nb_attrs(void)
 {
     struct xcm_attr_map *m = xcm_attr_map_create();
     xcm_attr_map_add_bool(m, "xcm.blocking", g_blocking ? true : false);
+    if (g_bytestream)
+        xcm_attr_map_add_str(m, "xcm.service", "bytestream");
     return m;
 }
 
@@ -890,24 +897,29 @@ static void flow_conn(int order, int traffic)
     struct xcm_socket *srv = NULL, *c = NULL, *p = NULL;
     mkaddr(addr, sizeof addr, 1, NULL);
     srv = do_server(addr, BAD_NONE);
+    MUST(srv, "server");
     if (!srv) {
         step_failed("server");
         goto out;
     }
     boundary();                                    /* 1: server alone */
     c = do_connect(addr, BAD_NONE);
+    MUST(c, "connect");
     if (!c) {
         step_failed("connect");
         goto out;
     }
     boundary();                                    /* 2: connection requested, not accepted */
     p = do_accept(srv, BAD_NONE, c);
+    MUST(p, "accept");
     if (!p) {
         step_failed("accept");
         goto out;
     }
     boundary();                                    /* 3: accepted, (TLS: handshake under way) */
-    if (establish(c, p) < 0) {
+    int est = establish(c, p);
+    MUST(est == 0, "establish");
+    if (est < 0) {
         step_failed("establish");
         goto out;
     }
@@ -915,7 +927,9 @@ static void flow_conn(int order, int traffic)
     g_fp = p;
     boundary();                                    /* 4: established */
     if (traffic) {
-        if (pass_one(c, p, 1) < 0 || pass_one(p, c, 2) < 0) {
+        int tr = pass_one(c, p, 1) < 0 || pass_one(p, c, 2) < 0;
+        MUST(!tr, "traffic");
+        if (tr) {
             step_failed("traffic");
             goto out;
         }
@@ -937,6 +951,7 @@ static void sc_server(void)
     char addr[200];
     mkaddr(addr, sizeof addr, 1, NULL);
     struct xcm_socket *s = do_server(addr, BAD_NONE);
+    MUST(s, "server");
     if (s) {
         boundary();
         /* a server with nothing pending: accept must leave nothing behind */
@@ -975,19 +990,21 @@ static void sc_inuse(void)
     char addr[200];
     mkaddr(addr, sizeof addr, 1, NULL);
     struct xcm_socket *s1 = do_server(addr, BAD_NONE);
+    MUST(s1, "first server");
     if (!s1)
         return;
     struct dirsnap before;
     files_snapshot(&before);
     struct xcm_socket *s2 = do_server(addr, BAD_NONE);
     mc_observe("second server -> %s", s2 ? "socket" : "NULL");
+    MUST(!s2, "refusal of a second server on the same address");
     check_files_kept(&before, "failed-second-server");
     sclose(&s2);
     /* the first one is still in business */
     struct xcm_socket *c = do_connect(addr, BAD_NONE);
     struct xcm_socket *p = c ? do_accept(s1, BAD_NONE, c) : NULL;
-    if (c && p && establish(c, p) == 0)
-        pass_one(c, p, 1);
+    int ok = c && p && establish(c, p) == 0 && pass_one(c, p, 1) == 0;
+    MUST(ok, "traffic on the first server");
     sclose(&c);
     sclose(&p);
     sclose(&s1);
@@ -1001,6 +1018,7 @@ static void sc_badattr_server(void)
         mkaddr(addr, sizeof addr, 1 + i, NULL);
         struct xcm_socket *s = do_server(addr, bads[i]);
         mc_observe("server with bad attribute %d -> %s", i, s ? "socket" : "NULL");
+        MUST(!s, "refusal of an invalid attribute (server)");
         sclose(&s);
     }
 }
@@ -1010,10 +1028,12 @@ static void sc_badattr_connect(void)
     char addr[200];
     mkaddr(addr, sizeof addr, 1, NULL);
     struct xcm_socket *srv = do_server(addr, BAD_NONE);
+    MUST(srv, "server");
     static const enum bad bads[] = { BAD_NAME, BAD_VALUE, BAD_TYPE };
     for (int i = 0; i < 3; i++) {
         struct xcm_socket *c = do_connect(addr, bads[i]);
         mc_observe("connect with bad attribute %d -> %s", i, c ? "socket" : "NULL");
+        MUST(!c, "refusal of an invalid attribute (connect)");
         sclose(&c);
     }
     sclose(&srv);
@@ -1051,12 +1071,13 @@ static void sc_accept_badattr(void)
     for (int i = 0; i < 3 && c; i++) {
         struct xcm_socket *p = do_accept(srv, bads[i], NULL);
         mc_observe("accept with bad attribute %d -> %s", i, p ? "socket" : "NULL");
+        MUST(!p, "refusal of an invalid attribute (accept)");
         sclose(&p);
     }
     /* the connection request is still there (or was consumed: both are fine) */
     struct xcm_socket *p = c ? do_accept(srv, BAD_NONE, c) : NULL;
-    if (p && establish(c, p) == 0)
-        pass_one(c, p, 1);
+    int ok = p && establish(c, p) == 0 && pass_one(c, p, 1) == 0;
+    MUST(ok, "accept and traffic after the refused accepts");
     sclose(&p);
     sclose(&c);
     sclose(&srv);
@@ -1090,6 +1111,7 @@ static void sc_abandon(const char *phase)
         mkaddr(addr, sizeof addr, 1, NULL);
     }
     struct xcm_socket *c = do_connect(addr, BAD_NONE);
+    MUST(c, "non-blocking connect");
     if (c) {
         if (rl >= 0) {
             rc = accept4(rl, NULL, NULL, SOCK_NONBLOCK);
@@ -1156,10 +1178,9 @@ static void sc_two(void)
         return;
     struct xcm_socket *c1 = do_connect(addr, BAD_NONE), *p1 = c1 ? do_accept(srv, BAD_NONE, c1) : NULL;
     struct xcm_socket *c2 = do_connect(addr, BAD_NONE), *p2 = c2 ? do_accept(srv, BAD_NONE, c2) : NULL;
-    if (c1 && p1 && establish(c1, p1) == 0)
-        pass_one(c1, p1, 1);
-    if (c2 && p2 && establish(c2, p2) == 0)
-        pass_one(p2, c2, 2);
+    int ok1 = c1 && p1 && establish(c1, p1) == 0 && pass_one(c1, p1, 1) == 0;
+    int ok2 = c2 && p2 && establish(c2, p2) == 0 && pass_one(p2, c2, 2) == 0;
+    MUST(ok1 && ok2, "two connections");
     sclose(&p1);
     sclose(&c2);
     sclose(&srv);
@@ -1184,6 +1205,7 @@ static void sc_pool(void)
             n++;
     }
     mc_observe("%d servers alive", n);
+    MUST(n == 101, "101 servers");
     /* close in an order that empties the second eventfd first, then the first */
     for (int i = n - 1; i >= 0; i--)
         sclose(&srv[i]);
@@ -1217,6 +1239,7 @@ static void sc_poolconn(void)
         }
     }
     mc_observe("%d pairs alive", n);
+    MUST(n == 50, "50 connection pairs");
     for (int i = 0; i < n; i++) {
         sclose(&c[i]);
         sclose(&p[i]);
@@ -1235,10 +1258,12 @@ static void sc_ctlclient(int with_fork)
         return;
     int cfd = ctl_client_connect();
     mc_observe("control client %s", cfd >= 0 ? "connected" : "not connected");
+    MUST(cfd >= 0, "control client connect");
     if (cfd >= 0) {
         poke_ctl(srv);                      /* the library accepts the client */
         int r1 = ctl_roundtrip(srv, cfd, 0);
         mc_observe("control round trip -> %d", r1);
+        MUST(r1 == 0, "control round trip");
         if (with_fork && r1 == 0) {
             g_boundary = g_forkat - 1;
             boundary();
@@ -1261,6 +1286,7 @@ static void sc_refused_blocking(void)
     struct xcm_socket *c = do_connect(addr, BAD_NONE);
     g_blocking = 0;
     mc_observe("blocking connect to nobody -> %s", c ? "socket" : "NULL");
+    MUST(!c, "refusal of a blocking connect");
     sclose(&c);
 }
 
@@ -1281,7 +1307,9 @@ static void sc_conn_blocking(void)
             rc = LAPI("xcm_receive", xcm_receive(p, in, sizeof in));
             mc_observe("blocking receive -> %d", rc);
         }
-    }
+        MUST(rc == 5, "blocking traffic");
+    } else
+        MUST(0, "blocking connect and accept");
     sclose(&c);
     sclose(&p);
     sclose(&srv);
@@ -1304,11 +1332,15 @@ static void sc_conn_variant(const char *what)
     struct xcm_socket *c = srv ? do_connect(caddr, BAD_NONE) : NULL;
     g_local_addr = NULL;
     struct xcm_socket *p = c ? do_accept(srv, BAD_NONE, c) : NULL;
-    if (c && p && establish(c, p) == 0)
-        pass_one(c, p, 1);
-    else if (c)
-        for (int i = 0; i < 5; i++)
-            do_finish(c);
+    if (c && p && establish(c, p) == 0) {
+        int rc = pass_one(c, p, 1);
+        MUST(rc == 0, "traffic");
+    } else {
+        MUST(!strcmp(what, "fail"), "connect variant");
+        if (c)
+            for (int i = 0; i < 5; i++)
+                do_finish(c);
+    }
     sclose(&c);
     sclose(&p);
     sclose(&srv);
